@@ -167,6 +167,17 @@ theorem fileInfo_spec (ns : NewSsi) (h : ns.WF) (cur : Option Bytes) (bytes : By
   · simp only [hfh, ↓reduceDIte]
     exact fileInfo_bad fh (by omega)
 
+/-- `FindSubseq` of a stored primary key (file handle registered, `1 ≤ start ≤ L`): the documented four outcomes
+    (`subseqSpec`): data offset unknown or no line geometry → start of data, residue 1; `bpl = rpl+1` → the exact byte
+    of residue `start`; otherwise the start of the line holding it. (`start < 1` is rejected: repaired test, DESIGN §7 item 11.) -/
+theorem findSubseq_spec (ns : NewSsi) (h : ns.WF) (cur : Option Bytes) (bytes : Bytes) (hw : (ns.write cur).2.2 = some bytes)
+    (k : PKey) (hk : k ∈ ns.pkeys) (hfh : k.fnum < ns.files.length) (start : Nat) (h1 : 1 ≤ start) (h2 : start ≤ k.len)
+    (hL : k.len < 2^63) :
+    (Ssi.open bytes.toArray).bind (·.findSubseq k.key (start : Int)) = .ok (subseqSpec k ns.files[k.fnum] start) := by
+  obtain ⟨hd, rfl⟩ := written_file ns h cur bytes hw
+  rw [open_image h]
+  exact findSubseq_primary h hd k hk hfh start h1 h2 hL
+
 /-! ## internal sort = external sort, for every insertion history -/
 
 /-- The bytes of the index (and the status, duplicates included) are the same whether the keys were sorted in
@@ -213,6 +224,17 @@ theorem history_index_correct (ops : List Op) (hv : ∀ op ∈ ops, op.Valid) (h
     rw [h2] at hb
     exact ⟨fun k hk => findName_stored _ hwf cur bytes hb k hk,
            fun key hp hs => findName_absent _ hwf cur bytes hb key hp hs⟩
+
+/-- after any valid history: an alias whose target is a registered primary key, and that is not itself a primary key
+    (known finding otherwise), is found with the target's record -/
+theorem history_alias_partial (ops : List Op) (hv : ∀ op ∈ ops, op.Valid) (hf : (logical ops).files ≠ [])
+    (hn : ops.length < 2^40) (cur : Option Bytes) (bytes : Bytes) (hw : ((run ops).write cur).2.2 = some bytes)
+    (a : SKey) (ha : a ∈ (logical ops).skeys) (k : PKey) (hk : k ∈ (logical ops).pkeys) (hak : a.pkey = k.key)
+    (hnp : ∀ k' ∈ (logical ops).pkeys, k'.key ≠ a.key) :
+    (Ssi.open bytes.toArray).bind (·.findName a.key) = .ok ⟨k.fnum, k.roff, k.doff, k.len⟩ := by
+  obtain ⟨hwf, heq⟩ := run_write_eq_logical ops hv hf hn cur
+  rw [heq] at hw
+  exact findName_alias_partial _ hwf cur bytes hw a ha k hk hak hnp
 
 /-! ## non-vacuity and the known finding -/
 
